@@ -26,11 +26,6 @@ pub struct Params {
     /// implementation limit of the cycle searches (RecursionStack, DEFAULT_RECURSION_LIMIT):
     /// more than this many names on the search stack is reported as "too deeply nested".
     pub recursion_limit: Option<usize>,
-    /// Input coercion of a custom scalar is implementation-defined (§3.5).  apollo-compiler's choice
-    /// (validation/value.rs since 1d09582): a *list* literal given to a custom scalar `S` is checked item by
-    /// item against the same type reference, so `[null]` is rejected for `S!` (and for `[S!]`) although
-    /// `{a: [null]}` is accepted; an object literal is opaque apart from §5.6.3 (unique field names) at any depth.
-    pub custom_scalar_list_items_typed: bool,
 }
 
 impl Params {
@@ -41,7 +36,6 @@ impl Params {
             builtin_type_redefinable: false,
             typecheck_schema_directive_arguments: true,
             recursion_limit: Some(32),
-            custom_scalar_list_items_typed: true,
         }
     }
 }
@@ -649,30 +643,27 @@ impl V {
     fn value_err(&self, ty: &Ty, v: &ast::Value) -> Option<&'static str> {
         if Self::literal_has_variable(v) { return Some("directive-argument-type"); }
         if Self::literal_has_dup(v) { return Some("directive-argument-input-field-unique"); }
-        self.value_err2(ty, v, false)
+        self.value_err2(ty, v)
     }
 
-    /// `nonnull`: the type reference `ty` stood directly under a `!`
-    fn value_err2(&self, ty: &Ty, v: &ast::Value, nonnull: bool) -> Option<&'static str> {
+    fn value_err2(&self, ty: &Ty, v: &ast::Value) -> Option<&'static str> {
         use ast::Value as Val;
         const BAD: Option<&'static str> = Some("directive-argument-type");
         match ty {
-            Ty::NonNull(inner) => if matches!(v, Val::Null) { BAD } else { self.value_err2(inner, v, true) },
+            Ty::NonNull(inner) => if matches!(v, Val::Null) { BAD } else { self.value_err2(inner, v) },
             _ if matches!(v, Val::Null) => None,
             Ty::List(item) => match v {
-                Val::List(items) => items.iter().find_map(|x| self.value_err2(item, x, false)),
+                Val::List(items) => items.iter().find_map(|x| self.value_err2(item, x)),
                 // a single value is coerced to a list of one item
-                _ => self.value_err2(item, v, false),
+                _ => self.value_err2(item, v),
             },
             Ty::Named(n) => {
                 let Some(t) = self.s.types.get(n) else { return None }; // reported by another rule
                 let ok = match t.kind {
-                    // custom scalar: coercion is implementation-defined
-                    Kind::Scalar if !t.builtin => match v {
-                        Val::List(items) if self.p.custom_scalar_list_items_typed =>
-                            items.iter().all(|x| if matches!(&**x, Val::Null) { !nonnull } else { self.value_err2(ty, x, nonnull).is_none() }),
-                        _ => true,
-                    },
+                    // custom scalar: coercion is implementation-defined; as in the reference implementation
+                    // (parseLiteral = valueFromASTUntyped) every constant is accepted, lists with nulls included
+                    // (§5.6.3 inside the literal is checked by `literal_has_dup` above)
+                    Kind::Scalar if !t.builtin => true,
                     Kind::Scalar => match (n.as_str(), v) {
                         ("Int", Val::Int(i)) => i.as_str().parse::<i32>().is_ok(),
                         ("Float", Val::Int(i)) => i.as_str().parse::<f64>().is_ok_and(|f| f.is_finite()),
@@ -693,7 +684,7 @@ impl V {
                                 names.insert(k.as_str());
                                 match t.input_fields.iter().find(|f| f.name == k.as_str()) {
                                     None => return BAD,
-                                    Some(f) => if let Some(e) = self.value_err2(&f.ty, x, false) { return Some(e); },
+                                    Some(f) => if let Some(e) = self.value_err2(&f.ty, x) { return Some(e); },
                                 }
                             }
                             t.input_fields.iter().all(|f| !f.required() || names.contains(f.name.as_str()))
